@@ -24,9 +24,10 @@ def value_along(body, local, path):
             last = ("call", b)
     if last is None:
         return None
+    bp = body_on_path(body, path)  # operands are resolved along this path only (a collecting local has one def here)
     if last[0] == "rv":
-        return body._rv_term(last[1])
-    return body.call_term(last[1])
+        return bp._rv_term(last[1])
+    return bp.call_term(last[1])
 
 
 def place_str(body, pl):
@@ -107,7 +108,10 @@ def body_on_path(body, path):
     """A view of `body` in which every local's definitions are restricted to the ones executed on `path`
     (the last one, if several): origin resolution through this view is path-sensitive (no phi terms)."""
     from .core import Body
-    v = Body(body.facts, body.key, body.j)
+    v = Body(body.facts, body.key, body.j, ssa=False)
+    v.blocks, v.locals, v.n = body.blocks, body.locals, body.n  # the normalised MIR of `body`, not the raw one
+    v.ssa_split, v.threaded = body.ssa_split, body.threaded
+    v._reset()
     order = {b: i for i, b in enumerate(path)}
     d = {}
     for local, ds in body.defs().items():
